@@ -148,7 +148,7 @@ def to_message(op):
 
 
 def run_history(part, binpath, rng, nops, sc_seed):
-    caps_on = rng.random() < .7
+    caps_on = rng.random() < .8
     caps = {"textDocument": {"publishDiagnostics": {}}} if caps_on else {}
     env = {}
     dpat = rng.choice(["none", "broker", "responder", "both", "jitter"])
@@ -297,14 +297,14 @@ def worker(args):
     for i in range(nhist):
         s = "%s/%d" % (seed, i)
         t0 = time.monotonic()
-        run_history(part, binpath, random.Random("C20/" + s), nops if (i % 3 or variant != "rel") else nops * 4, s)
+        run_history(part, binpath, random.Random("C20/" + s), nops if (i % (6 if nhist <= 6 else 3) or variant != "rel") else nops * (2 if nhist <= 6 else 4), s)
         part.add("slowest_history_seconds", int(time.monotonic() - t0) // 10 * 10)
     return part
 
 
 def run(ctx):
     server_bin("rel")
-    nh, nops = (4, 250) if ctx.quick else (60, 500)
+    nh, nops = (6, 250) if ctx.quick else (60, 500)
     for p in pmap(worker, [("%s/%d" % (ctx.seed, i), nh, nops, "rel") for i in range(NCPU)]): ctx.merge(p)
     if not ctx.quick:
         server_bin("tsan"); before = ctx.extra.get("counters", {}).get("histories", 0)
